@@ -152,6 +152,10 @@ pub struct RvaCall<'a> {
     pub stdout_fault: Option<&'a str>,
     /// named pipes of the sandbox (path relative to the root, text): each is fed once
     pub fifos: Vec<(String, String)>,
+    /// how the base file is named on the command line: 0 absolute path (cwd = sandbox root),
+    /// 1 relative to the root, 2 `./`-relative, 3 relative from the root's parent directory,
+    /// 4 absolute with a doubled slash and a `.` component
+    pub arg_style: u8,
 }
 
 const OUT_CAP: usize = 32 << 20;
@@ -197,9 +201,24 @@ pub fn run_rva(c: &RvaCall) -> std::io::Result<T2Run> {
             let _ = std::fs::copy(format!("{root}/{}", c.base), &full);
             cmd.arg(full);
         }
-        None => {
-            cmd.arg(format!("{root}/{}", c.base));
-        }
+        None => match c.arg_style {
+            1 => {
+                cmd.arg(c.base);
+            }
+            2 => {
+                cmd.arg(format!("./{}", c.base));
+            }
+            3 => {
+                let name = c.sandbox.dir.file_name().map(|n| n.to_string_lossy().to_string()).unwrap_or_default();
+                cmd.arg(format!("{name}/{}", c.base));
+            }
+            4 => {
+                cmd.arg(format!("{root}//./{}", c.base));
+            }
+            _ => {
+                cmd.arg(format!("{root}/{}", c.base));
+            }
+        },
     }
     cmd.env_clear()
         .env("LD_PRELOAD", &preload)
@@ -210,7 +229,7 @@ pub fn run_rva(c: &RvaCall) -> std::io::Result<T2Run> {
         .env("LANG", "C")
         .env("RUST_BACKTRACE", "0")
         .env("PATH", "/usr/bin:/bin")
-        .current_dir(&c.sandbox.dir)
+        .current_dir(if c.arg_style == 3 { c.sandbox.dir.parent().unwrap_or(&c.sandbox.dir) } else { &c.sandbox.dir })
         .stdin(Stdio::null())
         .stderr(Stdio::piped());
     match c.stdout_fault {
